@@ -64,7 +64,8 @@ CASES = {
 }
 for _n in ('SGD', 'Adam', 'Adagrad', 'RMSprop', 'AdamW'):
     CASES[f'Optimizer[{_n}]'] = ('c17_harness_optim', f'Optimizer_{_n}', 'thorough',
-                                 [(17, s, w, c, 3, 3, 4, -8) for s in range(6) for w in (0, 1, 2) for c in (False, True)])
+                                 [(17, s, w, False, 0.05, 3, 4) for s in range(6) for w in (0, 1, 2)] +
+                                 [(BIG, 0, 2, True, NAN, 0, 0), (-1, 0, 2, True, -INF, 1, 1)])
 
 BOUNDS = {
     'MCMC operators': 'ScalerOperator, SlidingWindowOperator, DirichletOperator, GMRFPiecewiseCoalescentBlockUpdatingOperator:'
@@ -77,7 +78,7 @@ BOUNDS = {
     'MCMC': '4 simple operators (+ HMC operator with all three adaptors); symbolic iteration counter; window 0..3',
     'Optimizer': 'thorough tier: SGD+momentum, Adam, Adagrad, RMSprop+momentum, AdamW+amsgrad x {no scheduler, StepLR, '
                  'MultiStepLR, ExponentialLR, LambdaLR, CosineAnnealingLR} x {0,1,2} concrete warm-up steps x '
-                 '{no convergence, StanVariationalConvergence}; two parameters (float64 [2], float32 [1]); symbolic '
+                 '(StanVariationalConvergence only without scheduler, 2 warm-up steps); two parameters (float64 [2], float32 [1]); symbolic '
                  'iteration counter, lr, scheduler last_epoch/_step_count, ELBO',
     'codec': 'thorough tier: tensors float64/float32/int64/bool, 0-2 dims, 0..3 columns, nn flag; Parameter specifications '
              'tensor/full/zeros/ones/zeros_like/ones_like/full_like/eye/tensor+dimension/scalar/integer x dtype key '
@@ -141,8 +142,40 @@ def parse_counterexample(msg, fn):
     return tuple(args), ast.literal_eval(m.group(3))
 
 
+SPECIAL = {
+    'update_parameters:dtype-not-restored':
+        'a Parameter specified with zeros_like/ones_like/full_like takes its dtype from the referenced parameter; '
+        'ParameterEncoder records that dtype in the checkpoint but update_parameters re-injects only the values '
+        '(keeping the dtype/nn keys of the specification), so on restart Parameter.from_json rebuilds the tensor with '
+        'the specification dtype key or the default dtype: float32 parameter comes back float64 or vice versa',
+    'Optimizer.load_state_dict:optimizer.state-int-keys-become-str':
+        "Optimizer.state_dict() embeds torch's optimizer.state_dict() whose 'state' is keyed by integer parameter "
+        "indices; JSON turns the keys into strings and Optimizer.load_state_dict passes them to torch unchanged, "
+        "so torch files the moments/step counts under '0','1',... instead of the parameters: after a restart every "
+        "parameter starts with empty optimiser state (momentum buffers, Adam moments and step counts silently lost)",
+    'Scheduler[MultiStepLR].load_state_dict:milestones-int-keys-become-str':
+        "MultiStepLR.milestones is a Counter keyed by integer epochs; after the JSON round trip Scheduler."
+        "load_state_dict installs a dict keyed by strings ('2','5'), `last_epoch in milestones` is never true again "
+        "and the learning rate is never decayed after a restart",
+    'Optimizer.load_state_dict:convergence-not-restored':
+        'the state of the convergence diagnostic (StanVariationalConvergence: elbo, elbo_best, elbo_diff window) is '
+        'neither written by Optimizer.state_dict nor restored by load_state_dict: after a restart the stopping rule '
+        'starts from scratch',
+    'MassMatrixAdaptor.load_state_dict:_values-not-restored':
+        'MassMatrixAdaptor with variance_window: the window of past samples (_values) is not checkpointed, so after a '
+        'restart the Welford estimator can no longer remove the samples that leave the window',
+    'MassMatrixAdaptor.load_state_dict:variance_estimator2-not-restored':
+        'MassMatrixAdaptor with swap_every: the second Welford estimator (variance_estimator2: mean, variance, sample '
+        'count) is not checkpointed and restarts from zero',
+    'DualAveragingStepSize.load_state_dict:_dual_avg._counter-not-restored':
+        "DualAveragingStepSize.state_dict writes the dual-averaging iteration counter as 'counter' but "
+        "load_state_dict never reads it: after a restart DualAveraging._counter is 0 again (step-size schedule restarts)",
+}
+
+
 def describe(sig):
-    cls, _, rest = sig.partition('.')
+    if sig in SPECIAL:
+        return SPECIAL[sig]
     if ':KeyError-' in sig:
         key = sig.split(':KeyError-')[1]
         c = sig.split('.load_state_dict')[0]
@@ -348,14 +381,14 @@ def json_model_sanity(tr):
             tr.inconc(f'checkpoint model differs from json+ParameterEncoder/TensorDecoder on {x!r}: {d}')
 
 
-def guard(tr):
+def guard(tr, thorough):
     """Every attribute of the objects under test is classified as constructor-determined or as run state."""
-    import torch
-
     from chk import c17_model as M
 
     objs = [M.mk_mcmc(True, diag=True, has_ass=True, has_da=True, has_mma=True, mma_mode=0),
-            M.mk_mma(diag=False, mode=1), M.mk_mma(diag=True, mode=2), M.mk_optimizer(1, 2, 1, True)]
+            M.mk_mma(diag=False, mode=1), M.mk_mma(diag=True, mode=2)]
+    if thorough:
+        objs.append(M.mk_optimizer(1, 2, 1, True))
     for o in objs:
         u = M.unclassified_fields(o)
         if u:
@@ -369,7 +402,6 @@ def guard(tr):
     except TypeError:
         tr.notes.append('StanWindowedAdaptation cannot be instantiated (abstract _state_dict/load_state_dict not '
                         'implemented), so no run and no checkpoint can contain it: not a C17 case')
-    del torch
 
 
 TIMEOUT = [60]
@@ -413,7 +445,7 @@ def body(chk):
         if thorough or k not in ('Optimizer', 'codec'):
             tr.bounds[k] = v
     json_model_sanity(tr)
-    guard(tr)
+    guard(tr, thorough)
     cases = [c for c, v in CASES.items() if thorough or v[2] == 'quick']
     pmap(run_task, cases, tr)
 
